@@ -526,7 +526,9 @@ func (p *Peer) SendCCS() error {
 	p.Sent = append(p.Sent, "ChangeCipherSpec")
 	if p.Wr.Key == nil {
 		if err := p.DeriveKeys(); err != nil {
-			return err
+			// a premature ChangeCipherSpec: no keys exist yet, so nothing can be switched on
+			p.Sent = append(p.Sent, "(no keys yet: protection stays off)")
+			return nil
 		}
 	}
 	p.Wr.On, p.Wr.Seq = true, 0
@@ -773,7 +775,15 @@ func ItemCertificate() Item {
 
 func ItemServerKX() Item {
 	return Item{Name: "ServerKeyExchange", Rec: RecHS, Build: func(p *Peer) []byte {
-		return HS(HSServerKX, SKEBody(SignSM2(p.ID.SignKey, SKEInput(p.CR, p.SR, p.ID.Certs[1]), p.Rand)))
+		enc := p.ID.Certs[len(p.ID.Certs)-1]
+		if len(p.ID.Certs) >= 2 {
+			enc = p.ID.Certs[1]
+		}
+		key := p.ID.SignKey
+		if key == nil {
+			key = big.NewInt(1) // a peer without a signing key can only guess
+		}
+		return HS(HSServerKX, SKEBody(SignSM2(key, SKEInput(p.CR, p.SR, enc), p.Rand)))
 	}}
 }
 
